@@ -61,7 +61,10 @@ impl TryFrom<&str> for TopicName {
         }
 
         #[cfg(not(feature = "__notopiccheck"))]
-        if value[1..].starts_with(RESERVED_NAMESPACE) {
+        if value
+            .get(1..)
+            .map_or(false, |rest| rest.starts_with(RESERVED_NAMESPACE))
+        {
             return Err(SeliumError::ReservedNamespaceError);
         }
 
